@@ -342,6 +342,15 @@ where
         self.buf_reader.buffer()
     }
 
+    // Drops the buffered data after a failed refill: the buffer is incomplete,
+    // so nothing can reliably be parsed from it or be reached by seek()
+    // without reading again.
+    #[inline(never)]
+    fn discard_buffer(&mut self) {
+        let n = self.buf_reader.buf_len();
+        self.buf_reader.consume(n);
+    }
+
     // Sets starting points for next position
     fn increment_record(&mut self) {
         self.position.byte += (self.buf_pos.pos.1 + 1 - self.buf_pos.pos.0) as u64;
@@ -407,7 +416,13 @@ where
                 self.make_room(incomplete_pos);
             }
 
-            fill_buf(&mut self.buf_reader)?;
+            if let Err(e) = fill_buf(&mut self.buf_reader) {
+                // The buffer is not full now, which would be mistaken for the
+                // end of the input by the next call: the error is final.
+                self.state = State::Finished;
+                self.discard_buffer();
+                return Err(e.into());
+            }
 
             if let Some(pos) = self.search_incomplete(incomplete_pos)? {
                 incomplete_pos = pos;
@@ -708,7 +723,14 @@ where
         self.incomplete_pos = None;
         self.state = State::Positioned;
         self.buf_pos.reset(0);
-        fill_buf(&mut self.buf_reader)?;
+        if let Err(e) = fill_buf(&mut self.buf_reader) {
+            // The buffer does not (completely) hold the data at the new
+            // position: nothing can be parsed from it, and its being not
+            // full does not mean that the end of the input was reached.
+            self.state = State::Finished;
+            self.discard_buffer();
+            return Err(e.into());
+        }
         Ok(())
     }
 }
